@@ -956,6 +956,73 @@ def rule_k(ctx: Context, R: Reporter):
     R.floor("C08.k", "renames that publish a file", n, 2)
 
 
+def rule_l(ctx: Context, R: Reporter):
+    """C08.l  nothing that is written to or read from a checkpoint is laid out in the iteration order of a set of
+    strings: `tuple(S)`, `list(S)`, `enumerate(S)`, `zip(.., S)` with S a set / frozenset of key names (or a set
+    expression over such constants) has an order that depends on the interpreter's string-hash seed, which differs
+    between the process that writes a checkpoint and the one that resumes it.  Iterating such a set to fill a dict by
+    key, membership tests and sorted(S) are order-free and not reported."""
+    n_sets = 0
+    str_sets: Dict[Tuple[str, str], bool] = {}
+
+    def is_str_set(mod, e, depth=0) -> bool:
+        if depth > 6 or e is None:
+            return False
+        if isinstance(e, ast.Set):
+            return bool(e.elts) and all(isinstance(x, ast.Constant) and isinstance(x.value, str) for x in e.elts)
+        if isinstance(e, ast.Call) and dotted(e.func) in ("frozenset", "set") and len(e.args) == 1:
+            a = e.args[0]
+            if isinstance(a, (ast.Set, ast.List, ast.Tuple)):
+                return bool(a.elts) and all(isinstance(x, ast.Constant) and isinstance(x.value, str) for x in a.elts)
+            return is_str_set(mod, a, depth + 1)
+        if isinstance(e, ast.BinOp) and isinstance(e.op, (ast.Sub, ast.BitOr, ast.BitAnd, ast.BitXor)):
+            return is_str_set(mod, e.left, depth + 1) or is_str_set(mod, e.right, depth + 1) if isinstance(e.op, ast.BitOr) else is_str_set(mod, e.left, depth + 1)
+        if isinstance(e, ast.Call) and isinstance(e.func, ast.Attribute) and e.func.attr in ("union", "difference", "intersection", "symmetric_difference", "copy"):
+            return is_str_set(mod, e.func.value, depth + 1)
+        if isinstance(e, ast.Name):
+            v = mod.constants.get(e.id)
+            if v is not None:
+                return is_str_set(mod, v, depth + 1)
+            src = mod.imports.get(e.id)
+            if src:
+                parts = src.rsplit(".", 1)
+                m2 = ctx.prog.modules.get(parts[0]) if len(parts) == 2 else None
+                if m2 is not None and parts[1] in m2.constants:
+                    return is_str_set(m2, m2.constants[parts[1]], depth + 1)
+        return False
+
+    def scan(mod, root, fi):
+        nonlocal n_sets
+        for c in ast.walk(root):
+            if not isinstance(c, ast.Call):
+                continue
+            nm = dotted(c.func)
+            ordered_of = None
+            if nm in ("tuple", "list", "enumerate", "np.array", "numpy.array", "np.asarray", "iter", "next") and c.args and is_str_set(mod, c.args[0]):
+                ordered_of = c.args[0]
+            elif nm == "zip" and any(is_str_set(mod, a) for a in c.args):
+                ordered_of = next(a for a in c.args if is_str_set(mod, a))
+            if ordered_of is None:
+                continue
+            R.check("C08.l", "no positional layout is derived from the iteration order of a set of key names", False, fi, c,
+                    msg=f"{mod.relpath}:{c.lineno}: `{unparse(c)[:60]}` fixes an order of the string set `{unparse(ordered_of)[:40]}`: that order depends on the interpreter's hash seed, so a "
+                        f"checkpoint (or any table) laid out by it in one process is read back with its columns / positions assigned to other keys in the next process",
+                    key=f"set-order-layout:{norm_text(c)[:50]}", loc=f"{mod.relpath}:{c.lineno}")
+
+    for m in ctx.prog.modules.values():
+        for nm_, v in m.constants.items():
+            if is_str_set(m, v):
+                n_sets += 1
+        # module level statements
+        for st in m.tree.body:
+            if not isinstance(st, (ast.FunctionDef, ast.AsyncFunctionDef, ast.ClassDef)):
+                scan(m, st, None)
+    for fi in ctx.prog.functions.values():
+        scan(fi.module, fi.node, fi)
+    R.check("C08.l", "module constants and functions scanned for set-order layouts", True, None, None, key="set-order-scan")
+    R.floor("C08.l", "sets of key names defined at module level", n_sets, 3)
+
+
 def rule_g(ctx: Context, R: Reporter):
     """The object pickled into the checkpoint is the live object itself under a
     pool-less configuration swap (restored afterwards); never a shallow copy,
@@ -1209,14 +1276,18 @@ def run(ctx: Context, R: Reporter):
     R.guard(rule_i, ctx, R)
     R.guard(rule_j, ctx, R)
     R.guard(rule_k, ctx, R)
+    R.guard(rule_l, ctx, R)
 
 
 def variants():
-    from ..variants import Variant, chain, alpha_rename, delete_stmt, edit, insert_after, insert_before, invert_if, replace_expr, replace_stmt
+    from ..variants import Variant, chain, alpha_rename, delete_stmt, edit, insert_after, insert_before, insert_before_function, invert_if, replace_expr, replace_stmt
 
     core = "tempest/core.py"
     sm = "tempest/state_manager.py"
     return [
+        Variant("l-history-columns-in-set-order", "bad", chain(insert_before_function(sm, "StateManager", "SCALAR_KEYS = tuple(HISTORY_STATE_KEYS - frozenset({'u', 'x', 'logl', 'blobs'}))\n"),
+                                                                 insert_after(core, "SamplerCore.save_sampler_state", "d = self.state.to_dict()", "d['_scalars'] = [d['_history'][k] for k in __import__('tempest').state_manager.SCALAR_KEYS]")), ["C08.l"], quick=True),
+        Variant("l-benign-history-columns-sorted", "benign", insert_before_function(sm, "StateManager", "SCALAR_KEYS = tuple(sorted(HISTORY_STATE_KEYS - frozenset({'u', 'x', 'logl', 'blobs'})))\n")),
         Variant("k-rename-in-finally", "bad", _rename_in_finally(True), ["C08.k"], quick=True),
         Variant("k-benign-cleanup-in-finally", "benign", _rename_in_finally(False)),
         Variant("i-float32-history", "bad", insert_after(core, "SamplerCore.save_sampler_state", "d = self.state.to_dict()", "d['_history'] = {k: [np.asarray(a, dtype=np.float32) for a in v] for k, v in d['_history'].items()}"), ["C08.i"], quick=True),
